@@ -157,7 +157,7 @@ def st_op(draw):
     if o == 'set':
         return {'o': 'set', 'k': k, 'v': draw(st_value())}
     if o == 'update':
-        form = draw(st.sampled_from(['dict', 'kwargs', 'pairs', 'empty', 'dict+kwargs', 'zip', 'generator', 'iter']))
+        form = draw(st.sampled_from(['dict', 'kwargs', 'pairs', 'empty', 'dict+kwargs', 'zip', 'generator', 'iter', 'overlap']))
         items = [] if form == 'empty' else [[kk, draw(st_value())] for kk in draw(st.lists(st.sampled_from(KEYS), max_size=3, unique=True))]
         return {'o': 'update', 'form': form, 'items': items}
     if o == 'pop':
@@ -334,6 +334,11 @@ def execute(ctx, spec):
                         md.update(iter(items))
                     elif form == 'empty':
                         md.update({})
+                    elif form == 'overlap':
+                        # a mapping AND keywords that name the same keys with other values: like dict.update, the keywords win
+                        kw = {k: v for k, v in items if k.isidentifier()}
+                        pos = {k: ('shadowed', i) if k in kw else v for i, (k, v) in enumerate(items)}
+                        md.update(pos if op.get('seed', 0) % 2 == 0 else list(pos.items()), **kw)
                     else:
                         half = len(items) // 2
                         kw = {k: v for k, v in items[half:] if k.isidentifier()}
@@ -522,6 +527,10 @@ def equal_values_specs():
                     op = {'o': 'set', 'k': 'k', 'v': new} if form == 'set' else {'o': 'update', 'form': form, 'items': items}
                     yield {'kind': kind, 'start': 'given', 'given': given, 'ops': [op, {'o': 'reopen'}, op]}
                     yield {'kind': kind, 'start': 'none', 'ops': [{'o': 'set', 'k': 'k', 'v': old}, op]}
+        for seed in (0, 1):
+            op = {'o': 'update', 'form': 'overlap', 'items': [['k', I(2)], ['z', L_(I(1))], ['not an identifier', B(True)]], 'seed': seed}
+            yield {'kind': kind, 'start': 'none', 'ops': [op, {'o': 'reopen'}, op]}
+            yield {'kind': kind, 'start': 'given', 'given': [['k', I(1)], ['z', I(5)]], 'ops': [op]}
 
 
 def task_equalvalues(ctx, col):
